@@ -219,8 +219,10 @@ type zzStep struct {
 	reqKeys []string
 	// reqByLabel: the varying value is a match label instead of the match name
 	reqByLabel bool
-	// context value the step writes
+	// context value the step writes ("" = it echoes the context it was sent)
 	ctxValue string
+	// noContext: the step answers without any context
+	noContext bool
 	// explicit metadata.name the function gives desired resource i ("" = none)
 	names []string
 	// emptyMessages: results carry no message text
@@ -299,6 +301,9 @@ func (r *zzRunner) RunFunction(_ context.Context, name string, req *fnv1.RunFunc
 	if st.ctxValue != "" {
 		c, _ := structpb.NewStruct(map[string]any{"from": st.ctxValue})
 		rsp.Context = c
+	}
+	if st.noContext {
+		rsp.Context = nil
 	}
 	for i, want := range st.desired {
 		if want {
